@@ -161,4 +161,141 @@ theorem numOp_sim (op : BinOp) (a b : Rat) : Sim (numOp op a b) (siBin op (.num 
   case div | mod => by_cases h0 : b = 0 <;> si_simp
   all_goals si_simp
 
+/-- Python's dispatch over the nine operand-type pairings -/
+theorem binop_sim (op : BinOp) (a b : Operand) (ha : a.wf) (hb : b.wf) :
+    Sim (binop op a b) (siBin op (siOf a) (siOf b)) := by
+  cases a with
+  | num m =>
+    cases b with
+    | num n => exact numOp_sim op m n
+    | val y => exact UVal.rdunder_sim op y m hb
+    | arr y => exact UArr.rdunder_sim op y m hb
+  | val x => exact UVal.dunder_sim op x b ha hb
+  | arr x => exact UArr.dunder_sim op x b ha hb
+
+theorem abs_conv {f : Rat} (hf : 0 < f) (a : Rat) :
+    (if 0 ≤ a * f then a * f else -(a * f)) = (if 0 ≤ a then a else -a) * f := by
+  by_cases h : 0 ≤ a
+  · have : 0 ≤ a * f := mul_nonneg h (le_of_lt hf)
+    simp [h, this]
+  · have : ¬ 0 ≤ a * f := by
+      intro h'
+      exact h (nonneg_of_mul_nonneg_left h' hf)
+    simp [h, this]
+
+theorem neg_sim (a : Operand) (ha : a.wf) : siNeg (siOf a) = siOf a.neg ∧ a.neg.wf := by
+  cases a with
+  | num n => si_simp
+  | val x => have hx : x.u.sys.valid = true := ha; si_simp
+  | arr x => have hx : x.u.sys.valid = true := ha; si_simp
+
+theorem abs_sim (a : Operand) (ha : a.wf) : siAbs (siOf a) = siOf a.abs ∧ a.abs.wf := by
+  cases a with
+  | num n => si_simp
+  | val x =>
+    have hx : x.u.sys.valid = true := ha
+    have := abs_conv (siFactor_pos hx x.u.dim); si_simp
+  | arr x =>
+    have hx : x.u.sys.valid = true := ha
+    have := fun a => abs_conv (siFactor_pos hx x.u.dim) a
+    si_simp
+
+theorem inv_sim (a : Operand) (ha : a.wf) : Sim a.inv (siInv (siOf a)) := by
+  cases a with
+  | num n => by_cases h0 : n = 0 <;> si_simp
+  | val x =>
+    have hx : x.u.sys.valid = true := ha
+    by_cases h0 : x.v = 0 <;> si_simp <;> si_done
+  | arr x =>
+    have hx : x.u.sys.valid = true := ha
+    by_cases h0 : 0 ∈ x.vs <;> si_simp <;> si_done
+
+/-! ### expression trees -/
+
+def Expr.wf : Expr → Prop
+  | .leaf o => o.wf
+  | .bin _ a b => a.wf ∧ b.wf
+  | .pow a b => a.wf ∧ b.wf
+  | .neg a => a.wf
+  | .abs a => a.wf
+  | .inv a => a.wf
+
+/-- what is assumed of `**`: the model's `powOp` agrees with the SI-level `siPow` (proved below for the cases
+that do not need the trusted primitive, and from `PowContract` for the others) -/
+def PowHom (pyPow : Rat → Rat → Rat) : Prop :=
+  ∀ a b : Operand, a.wf → b.wf → Sim (powOp pyPow a b) (siPow pyPow (siOf a) (siOf b))
+
+theorem Sim.ok_inv {a : Res Operand} {b : Res SIVal} {r : Operand} (h : Sim a b) (ha : a = .ok r) :
+    b = .ok (siOf r) ∧ r.wf := by
+  subst ha; exact h
+
+theorem eval_sim (pyPow : Rat → Rat → Rat) (hp : PowHom pyPow) (e : Expr) (he : e.wf) :
+    Sim (eval pyPow e) (evalSI pyPow e) := by
+  induction e with
+  | leaf o => exact ⟨rfl, he⟩
+  | bin op a b iha ihb =>
+    have ha := iha he.1
+    have hb := ihb he.2
+    simp only [eval, evalSI]
+    cases hea : eval pyPow a with
+    | error e => rw [hea] at ha; obtain ⟨e', h'⟩ := ha; simp [Sim, h']
+    | ok x =>
+      rw [hea] at ha
+      obtain ⟨h1, wx⟩ := ha
+      cases heb : eval pyPow b with
+      | error e => rw [heb] at hb; obtain ⟨e', h'⟩ := hb; simp [Sim, h1, h']
+      | ok y =>
+        rw [heb] at hb
+        obtain ⟨h2, wy⟩ := hb
+        simp only [h1, h2]
+        exact binop_sim op x y wx wy
+  | pow a b iha ihb =>
+    have ha := iha he.1
+    have hb := ihb he.2
+    simp only [eval, evalSI]
+    cases hea : eval pyPow a with
+    | error e => rw [hea] at ha; obtain ⟨e', h'⟩ := ha; simp [Sim, h']
+    | ok x =>
+      rw [hea] at ha
+      obtain ⟨h1, wx⟩ := ha
+      cases heb : eval pyPow b with
+      | error e => rw [heb] at hb; obtain ⟨e', h'⟩ := hb; simp [Sim, h1, h']
+      | ok y =>
+        rw [heb] at hb
+        obtain ⟨h2, wy⟩ := hb
+        simp only [h1, h2]
+        exact hp x y wx wy
+  | neg a ih =>
+    have ha := ih he
+    simp only [eval, evalSI]
+    cases hea : eval pyPow a with
+    | error e => rw [hea] at ha; obtain ⟨e', h'⟩ := ha; simp [Sim, h']
+    | ok x =>
+      rw [hea] at ha
+      obtain ⟨h1, wx⟩ := ha
+      simp only [h1, Sim]
+      have := neg_sim x wx
+      exact ⟨by rw [this.1], this.2⟩
+  | abs a ih =>
+    have ha := ih he
+    simp only [eval, evalSI]
+    cases hea : eval pyPow a with
+    | error e => rw [hea] at ha; obtain ⟨e', h'⟩ := ha; simp [Sim, h']
+    | ok x =>
+      rw [hea] at ha
+      obtain ⟨h1, wx⟩ := ha
+      simp only [h1, Sim]
+      have := abs_sim x wx
+      exact ⟨by rw [this.1], this.2⟩
+  | inv a ih =>
+    have ha := ih he
+    simp only [eval, evalSI]
+    cases hea : eval pyPow a with
+    | error e => rw [hea] at ha; obtain ⟨e', h'⟩ := ha; simp [Sim, h']
+    | ok x =>
+      rw [hea] at ha
+      obtain ⟨h1, wx⟩ := ha
+      simp only [h1]
+      exact inv_sim x wx
+
 end Strengths
